@@ -7,6 +7,7 @@ UNIT = {
     'property': 'C01',
     'rlimit': 60,
     'verus_args': ['--edition=2024'],
+    'vacuity_floor': 6,
     'items': [
         ('@raw', 'pub mod ph {\n' + MOD_HEAD),
         (ATTR, ['enum Origin']),
@@ -16,10 +17,16 @@ UNIT = {
         ('@file', 'prelude.rs'),
         (PHRASE, ['impl Phrase', 'fn zero_fields'], {'ret': 'r', 'ensures': ['view(r) =~= Seq::<Seq<AttrChar>>::empty()']}),
         (PHRASE, ['impl Phrase', 'fn append'], {
+            'token_rewrites': [('left . extend ( right . drain ( 1 . . ) )', 'verif_extend_drain_from(left, right, 1)')],
             'ensures': [
-                'view(*final(self)) =~= join(view(*old(self)), view(*old(other)))',
+                'view(*final(self)) =~~= join(view(*old(self)), view(*old(other)))',
                 'view(*final(other)) =~= Seq::<Seq<AttrChar>>::empty()',
             ]}),
+        (PHRASE, ['impl Phrase', 'fn one_empty_field'], {'ret': 'r', 'ensures': ['view(r) =~~= seq![Seq::<AttrChar>::empty()]']}),
+        (PHRASE, ['impl Phrase', 'fn is_zero_fields'], {'ret': 'r', 'ensures': ['r == (view(*self).len() == 0)']}),
+        (PHRASE, ['impl Phrase', 'fn field_count'], {'ret': 'r', 'ensures': ['r == view(*self).len()']}),
+        (PHRASE, ['impl AddAssign for Phrase', 'fn add_assign'], {'wrapper': 'impl Phrase', 'ensures': [
+            'view(*final(self)) =~~= join(view(*old(self)), view(other))']}),
         ('@raw', '}\n'),
     ],
 }
